@@ -10,6 +10,7 @@ the reads issued afterwards.  Direct oracle on the quiescent state: everything p
 present, a tag pushed by several clients resolves to one of the manifests pushed under it, the referrers list of a
 shared subject holds every acknowledged, undeleted artifact."""
 import itertools
+import os
 import json
 
 import apicheck
@@ -395,6 +396,43 @@ def linearize(ctx, cases, iouts, views):
     return nlin, nfail, norders
 
 
+def children_check(ctx):
+    """children of a tagged index are pulled by digest by one client while others tag and untag those children and push the
+    index again: nobody deletes a manifest, so every pull answers 200 with the pushed bytes (no sequential order answers 404)"""
+    import c13
+    rng = ctx.rng
+    cases = [c13.sc_children(rng, 970000 + i, ("mem", "dir")[i % 2], deletes=False) for i in range(12 if ctx.tier == "quick" else 300)]
+    # (the window between a reader's snapshot of the index and its use is a few instructions wide: the run uses the race-detector
+    #  build, which reports the unsynchronised access itself - the way a read gets torn - whether or not this schedule tore one)
+    import glob
+    logp = os.path.join(ctx.work, "children.race")
+    for f in glob.glob(logp + ".*"):
+        os.remove(f)
+    iouts = run_api(ctx, api_binary(ctx, race=True), cases, name="children", workers=4, race_log=logp)
+    text = "".join(open(f, errors="replace").read() + "\n" for f in sorted(glob.glob(logp + ".*")))
+    seen = {}
+    for sig, rep in c13.parse_reports(text):
+        seen.setdefault(sig, rep)
+    nbad = 0
+    for sig, rep in sorted(seen.items()):
+        nbad += 1
+        ctx.violation("a reader of the repository's index and a concurrent writer touch the same memory without synchronisation (%s): the read can return a state no sequential order produces"
+                      % sig, dict(report=rep, workload="children pulled by digest while others tag / untag them and push the index again (-race build)"), "C11:torn-read-race:%s" % sig)
+    for c in cases:
+        io = iouts[c["id"]]
+        for k, (st, r) in enumerate(zip(c["steps"], io["steps"])):
+            if st["kind"] != "par":
+                continue
+            for th, rs in zip(c["threads"], r.get("par") or []):
+                for s2, r2 in zip(th, rs):
+                    if s2["kind"] == "mget" and r2.get("status") != 200:
+                        nbad += 1
+                        ctx.violation("GET %s by digest answered %s while other clients only tagged / untagged manifests and pushed the index again: no sequential order of the requests loses the manifest"
+                                      % (s2["arg"][:19], r2.get("status")), dict(case=replayable(c), response=str(r2)[:300]), "C11:child-read-torn")
+                        break
+    return len(cases), nbad
+
+
 def lag_cases(ctx, first):
     """an artifact push / delete that has to wait for the server's referrers mutex (held on behalf of another client's artifact
     request) between its two updates: reads that arrive meanwhile"""
@@ -466,6 +504,7 @@ def run(ctx):
         # a listing that spans several requests while a referrer is deleted (shared with C07)
         import c07
         res["paged"] = c07.paged_delete_check(ctx)
+        res["children"] = children_check(ctx)
         bodies = set()
         for c in cases:
             bodies |= set(c["contents"])
@@ -482,3 +521,4 @@ def run(ctx):
         ctx.coverage["correspondence_mismatches"] = ctx.coverage.get("correspondence_mismatches", 0) + nfail
         ctx.coverage["referrers_mutex_schedules"], ctx.coverage["referrers_lag_observed"] = res.get("lag", (0, 0))
         ctx.coverage["paged_listings_across_a_delete"], ctx.coverage["paged_listings_incomplete"] = res.get("paged", (0, 0))
+        ctx.coverage["children_pulled_during_index_updates"], ctx.coverage["children_reads_torn"] = res.get("children", (0, 0))
